@@ -732,11 +732,22 @@ def class_axes(clsname, cls, tier):
     return axes, None
 
 
+MQSET = set("""
+M:sphere-cplx M:sphere-derived M:spheres-shared 0.75 P:U-int
+O:red-green-prior None 0.25 O:red-green 1.5 P:U O:pol-tuple O:pol-dict
+T:Mie-opts T:MieLens-prior str:auto C:limit F:calc_intensity tie1 tie2
+""".split())
+
+
 def _level(tier, clsname, d):
     """labels admitted in vectors with d >= 2 deviations"""
+    if clsname in MODEL_CLASSES:
+        # a model costs ~5 times a plain object: pairs from the model core
+        # (quick) or the full thorough core, triples from the model core
+        if tier == "quick" or d >= 3:
+            return MQSET
+        return QSET | TSET
     if tier == "quick":
-        return QSET
-    if clsname in MODEL_CLASSES and d >= 3:
         return QSET
     return QSET | TSET
 
@@ -790,7 +801,10 @@ def cases(tier, seed):
                 (16 if model else MAXBLOCK)
             for k in range(0, len(vs), maxblock):
                 chunk = vs[k:k + maxblock]
-                mixed = [d == 0 or (d == 1 and v[dev[0]] in QSET)
+                # target sequences of mixed targets: up to length 3 for the
+                # base object, length 2 for single deviations of the core
+                mixed = [3 if d == 0 else
+                         (2 if d == 1 and v[dev[0]] in QSET else 0)
                          for v in chunk]
                 cid = "obj:%s|dev=%s|%s%d" % (clsname, ",".join(dev) or "-",
                                               mark, k // maxblock)
@@ -1369,9 +1383,9 @@ def _model_extra(ref_m):
 # --------------------------------------------------------------------------
 # run
 # --------------------------------------------------------------------------
-def _mixed_sequences():
+def _mixed_sequences(maxlen=3):
     out = []
-    for n in (1, 2, 3):
+    for n in range(2, maxlen + 1):
         for seq in itertools.product(TARGETS, repeat=n):
             if len(set(seq)) > 1:
                 out.append(list(seq))
@@ -1404,7 +1418,7 @@ def _check_object(ck, clsname, vec, mixed, tmpdir, stats, texts_fp):
                        plain, texts, extra)
         if mixed:
             cache = {}
-            for seq in _mixed_sequences():
+            for seq in _mixed_sequences(int(mixed)):
                 _run_chain(fs, ck, obj, ref, seq, tmpdir, counter, plain,
                            texts, extra, cache=cache)
         # the original must not be changed by being saved
@@ -1431,7 +1445,7 @@ def _run_obj(case, ck):
     tmpdir = tempfile.mkdtemp(prefix="c15_")
     agg = {}
     try:
-        flags = case.get("mixed") or [False] * len(case["vectors"])
+        flags = case.get("mixed") or [0] * len(case["vectors"])
         for vec, mixed in zip(case["vectors"], flags):
             found, call = _check_object(ck, clsname, vec, mixed,
                                         tmpdir, stats, texts_fp)
